@@ -58,6 +58,15 @@ func genC17(tier string, seed uint64, emit func(string)) {
 	for _, p := range wordsUpTo(globAlphabet, kpl) {
 		emit("keyscan " + hx(p) + " " + strings.Join(stored, " "))
 	}
+	// the pattern of a SCAN call is the pattern of that call: a continued cursor with another pattern than the call that
+	// started the iteration (same connection) is filtered by the pattern it carries itself
+	for _, pa := range [][]byte{[]byte("a*"), []byte("*"), []byte("?"), []byte("b?")} {
+		for _, pb := range wordsUpTo(globAlphabet, 2) {
+			if len(pb) > 0 && string(pa) != string(pb) {
+				emit("scanswitch " + hx(pa) + " " + hx(pb) + " " + strings.Join(stored, " "))
+			}
+		}
+	}
 	// a second complete enumeration over an alphabet with the characters that mean something inside Go's regexp quoting
 	// forms (backslash, the Q and E of \Q...\E, a class bracket): every pattern up to length 4 against every key up to 3
 	alt := []byte("a*?\\EQ[")
@@ -207,9 +216,63 @@ func runKeyScan(toks []string) Result {
 	return Result{Obs: "keys=" + kb.String() + " scan=" + sb.String(), Oracle: oracle, Tags: tags}
 }
 
+// case: "scanswitch <patA> <patB> <keys...>": SCAN 0 MATCH A COUNT 2, then on the same connection SCAN 1 MATCH B and
+// SCAN 2 MATCH B: what the continued calls return is selected by B.
+func runScanSwitch(toks []string) Result {
+	pa, pb := unhx(toks[1]), unhx(toks[2])
+	keys := hexSegs(toks[3:])
+	var stream []byte
+	for _, k := range keys {
+		stream = append(stream, requestBytes([][]byte{[]byte("SET"), k, []byte("1")}, nil)...)
+	}
+	stream = append(stream, reqS("SCAN", "0", "MATCH", string(pa), "COUNT", "2")...)
+	stream = append(stream, reqS("SCAN", "1", "MATCH", string(pb), "COUNT", "100000")...)
+	stream = append(stream, reqS("SCAN", "2", "MATCH", string(pb), "COUNT", "100000")...)
+	obs, panicked, hung, _ := runXServe(stream)
+	tags := []string{"nt", "scanswitch"}
+	if panicked != "" || hung {
+		return Result{Obs: "crash", Oracle: "fail:SCAN crashed or hung: " + trunc(panicked, 80), Tags: tags}
+	}
+	var writes [][]byte
+	for _, e := range strings.Fields(obs) {
+		if strings.HasPrefix(e, "wr:") && e != "wr:E" {
+			writes = append(writes, unhx(e[3:]))
+		} else if e == "wr:E" {
+			writes = append(writes, []byte("-E\r\n"))
+		}
+	}
+	if len(writes) != len(keys)+3 {
+		return Result{Obs: "short", Oracle: "fail:not every request was answered", Tags: tags}
+	}
+	want := 0
+	for _, k := range keys {
+		if refGlob(pb, k) {
+			want++
+		}
+	}
+	for i, skipped := range []int{1, 2} {
+		n, _, ok := refParse(writes[len(keys)+1+i])
+		if !ok || n == nil || n.Kind != 'a' || len(n.Es) != 2 || n.Es[1].Kind != 'a' {
+			return Result{Obs: "bad-reply", Oracle: "fail:SCAN did not answer with [cursor, keys]", Tags: tags}
+		}
+		for _, e := range n.Es[1].Es {
+			if !refGlob(pb, e.P) {
+				return Result{Obs: "unsound", Oracle: fmt.Sprintf("fail:SCAN %d MATCH %q (after SCAN 0 MATCH %q on the same connection) returned %q, which the glob does not match", skipped, pb, pa, e.P), Tags: tags}
+			}
+		}
+		if got := len(n.Es[1].Es); got < want-skipped-1 { // the cursor is the index of the last key handed out
+			return Result{Obs: "incomplete", Oracle: fmt.Sprintf("fail:SCAN %d MATCH %q COUNT 100000 returned %d keys, %d match and at most %d were skipped", skipped, pb, got, want, skipped+1), Tags: tags}
+		}
+	}
+	return Result{Obs: "sound", Oracle: "ok", Tags: tags}
+}
+
 func runC17(toks []string) Result {
 	if toks[0] == "keyscan" {
 		return runKeyScan(toks)
+	}
+	if toks[0] == "scanswitch" {
+		return runScanSwitch(toks)
 	}
 	var pat []byte
 	var keys [][]byte
